@@ -31,3 +31,6 @@
 (assert (forall ((l Seq_Ref) (q Seq_S_primitive_E) (d (Array Int Seq_S_primitive_E)) (i Int) (j Int))
   (! (=> (and (<= 0 i) (< i j) (< j (len.Seq_Ref l))) (not (= (sortedSrc l q d i) (sortedSrc l q d j))))
    :pattern ((sortedSrc l q d i) (sortedSrc l q d j)))))
+; seqId: the identity on sequences (lets a contract name "the elements of this heap
+; slice as a sequence" where no other specification function is applied to it)
+(define-fun seqId ((s Seq_Ref)) Seq_Ref s)
